@@ -541,7 +541,7 @@ class Aa55ProtocolCommand(ProtocolCommand):
         checksum = 0
         for each in data[:-2]:
             checksum += each
-        if checksum != int.from_bytes(data[-2:], byteorder="big", signed=True):
+        if checksum & 0xffff != int.from_bytes(data[-2:], byteorder="big", signed=False):
             logger.debug("Response checksum does not match.")
             return False
         return True
